@@ -1275,6 +1275,43 @@ theorem remove_notify_below {limit : Nat} {c : Ctx} {w : Wid} {addrs : List Addr
     (h : istep limit c w addrs x (.notify n b) = some x') : PhaseW c w addrs own' G x' :=
   phaseW_notify hS hP hN hinj hg0 h
 
+
+/-- **remove_interleaved_below_from_inv** — `remove_interleaved_below` stated from the hypotheses of the full statement
+    `remove_interleaved_projects_full` (C01's invariant for the full keystore table, `w` flagged, every other keystore's
+    wallet ready, …) plus: the flagged wallet's balance entry is its ledger total, some wallet is ready, and the history is
+    inside `DomW`.  The differences to the open `def` are exactly these three. -/
+theorem remove_interleaved_below_from_inv (limit : Nat) (c : Ctx) (w : Wid) (addrs : List Addr) (own' : Own) (G : Block)
+    (x0 x : ISt) (evs : List IEv) (ws' : List Wid)
+    (hKN : KeysNodup c.own) (H : RemHyp c w addrs own' c.node.chain) (hg : GoodChain c.node.chain)
+    (hgen : c.node.chain[0]? = some G) (hnode : x0.node = c.node) (hfin : x0.fin = false)
+    (hbest : x0.v.best = tipMeta c.node.chain) (hI : Inv c x0.s c.node.chain) (hn : KeysNodup x0.s.credits)
+    (hflag : AMap.get x0.s.status w = some ⟨none, true⟩)
+    (hothers : ∀ a w' ch, AMap.get c.own a = some (w', ch) → w' ≠ w →
+      (readyWallets x0.s c.wallets).contains w' = true)
+    (hbalw : AMap.get x0.s.balance w = some (totalU (bookOf c.p c.own c.node.chain).L w))
+    (hrne : (readyWallets x0.s c.wallets).isEmpty = false)
+    (hD : DomW limit c w addrs G x0 evs) (hws : ∀ y ∈ ws', y ∈ c.wallets)
+    (hrun : irun limit c w addrs x0 evs = some x) (hfinx : x.fin = true) :
+    Inv { c with own := own', wallets := ws', node := x.node } x.s x.node.chain :=
+  MW.Lemmas.RemoveInterleave.remove_interleaved_below
+    (phase1_of_inv hKN H hg hgen hnode hfin hbest hI hn hflag hothers hbalw hrne) ⟨H.minus, H.managed, H.ne, hKN⟩ hD hrun
+    hfinx hws
+
+
+/-- non-vacuity: every hypothesis, on the D45 history -/
+example (x : ISt) (h : irun 1 MW.Lemmas.RemoveMidCex.ctx "W2" ["A2"] MW.Lemmas.RemoveMidCex.x0
+      MW.Lemmas.RemoveMidCex.evs = some x) (hf : x.fin = true) :
+    Inv { MW.Lemmas.RemoveMidCex.ctx with own := MW.Lemmas.RemoveMidCex.own', wallets := ["W1"], node := x.node } x.s
+      x.node.chain :=
+  remove_interleaved_below_from_inv 1 MW.Lemmas.RemoveMidCex.ctx "W2" ["A2"] MW.Lemmas.RemoveMidCex.own'
+    MW.Lemmas.RemoveMidCex.g MW.Lemmas.RemoveMidCex.x0 x MW.Lemmas.RemoveMidCex.evs ["W1"]
+    MW.Lemmas.RemoveMidCex.own_nodup MW.Lemmas.RemoveMidCex.remHyp MW.Lemmas.RemoveMidCex.goodA rfl rfl rfl rfl
+    MW.Lemmas.RemoveMidCex.inv_stF MW.Lemmas.RemoveMidCex.stF_nodup MW.Lemmas.RemoveMidCex.stF_flagged
+    MW.Lemmas.RemoveMidCex.others_ready (by decide)
+    (by show (readyWallets MW.Lemmas.RemoveMidCex.stF ["W1", "W2"]).isEmpty = false
+        rw [MW.Lemmas.RemoveMidCex.readyF]; rfl)
+    MW.Lemmas.RemoveBelowEx.domW MW.Lemmas.RemoveInterleave2Ex.only_w1 h hf
+
 end Round7
 
 -- ------------------------------------------------------------------ byte level (Round 4): id-prefix scans on real byte keys
